@@ -168,6 +168,43 @@ def _numeric_gls(cx, tag, pb, fit):
             cx.concrete(tag + ":numeric:cov[%d][%d]==GLS" % (i, j), abs(cov[i, j] - C[a, bb]) <= 5e-2 * sig[a] * sig[bb], info="fit %r GLS %r" % (cov[i, j], C[a, bb]))
 
 
+def sc_refit(cx, minimizer, change):
+    """a second fit after the configuration changed: the cost node minimised is chosen anew (the pointwise shortcut of
+    the default cost only for an exactly diagonal covariance) and the objective is the documented cost of the NEW covariance"""
+    pb = B.build(cx, "xy", minimizer, cost="chi2", model="lin", sources=[("SA", "y", "data")], rho=0)
+    for i in range(pb.n):
+        for j in range(i + 1, pb.n):
+            cx.assume(pb.x[i] != pb.x[j])
+    pb.assume_pd()
+    fit = pb.fit
+    fit.do_fit()
+    tag = "refit/%s/%s" % (minimizer, change)
+    if change == "add-correlated":
+        pb.add_source("SA", "late", axis="y", reference="data", rho="sym")
+    elif change == "add-matrix":
+        pb.add_source("MC", "late", axis="y", reference="data")
+    elif change == "enable-correlated":
+        pass
+    V0 = pb.total_cov()
+    for mn in O.leading_minors(V0):
+        cx.assume(mn > 0)
+    stubs.reset()
+    fit.do_fit()
+    pw = getattr(fit, "_cost_function_pointwise", None)
+    off = [V0[i][j] for i in range(pb.n) for j in range(i + 1, pb.n)]
+    if pw is not None and fit._fitter.parameter_to_minimize == pw.name:
+        if cx.symbolic:
+            cx.eq(tag + ":pointwise-cost-minimised-only-for-a-diagonal-covariance", off, [0.0] * len(off))
+        else:
+            cx.concrete(tag + ":pointwise-cost-minimised-only-for-a-diagonal-covariance", all(float(v) == 0.0 for v in off), info="off-diagonal %r" % ([float(v) for v in off],))
+    cx.eq(tag + ":total_cov_mat", fit.total_cov_mat, V0)
+    if cx.symbolic:
+        call, xfull, qfull = B.last_minimisation(pb)
+        Va, prem = B.cut_cov(cx, pb, fit.total_cov_mat)
+        q = B.full_point(pb, call["q"]) if call["kind"] == "opt.minimize" else list(call["q"])
+        cx.eq(tag + ":objective(q)==documented-cost(q)-of-the-new-configuration", call["fq"], pb.cost_oracle(q, V=Va, cut=True), abstract=True, premises=prem)
+
+
 def sc_lemma(cx, p):
     """(C) the stationary point of Q(p) = r^T V^-1 r is p* = (W^T V^-1 W)^-1 W^T V^-1 d, Hessian = 2 W^T V^-1 W"""
     n = p
@@ -280,6 +317,8 @@ def scenarios(tier, seed):
         for srcs in (["SA"], ["MC"]):
             S.append(Scenario("fit/xy-lin/%s/%s/noconstraint/fixed-none/chi2" % (minimizer, "+".join(srcs)), sc_fit, family="fit/xy/%s/chi2" % minimizer,
                               params=dict(ftype="xy", minimizer=minimizer, srcs=srcs, constraints=(), fixed=(), model="lin", cost="chi2")))
+        for change in ("add-correlated",) if q else ("add-correlated", "add-matrix"):
+            S.append(Scenario("refit/%s/%s" % (minimizer, change), sc_refit, family="refit/" + minimizer, params=dict(minimizer=minimizer, change=change)))
         for case in ("line", "line-correlated", "quadratic", "indexed"):
             S.append(Scenario("numeric/%s/%s" % (case, minimizer), sc_numeric, family="numeric", params=dict(case=case, minimizer=minimizer), concrete_only=True))
     for p in (1, 2):
